@@ -734,6 +734,68 @@ Section Entry.
         * intros z [<-|Hz]; [now left | right; now apply I].
   Qed.
 
+  Lemma pack_fields ip (d : dict) c e d' :
+    let out := pack V ip d c (e, d') in
+    o_err out = e /\ (ip = false -> o_recv out = d) /\ (e = None -> target out = d') /\
+    (ip = true -> o_recv out = d') /\ o_calls out = c.
+  Proof.
+    unfold pack, target. destruct e as [x|], ip; simpl; repeat split; auto; discriminate.
+  Qed.
+
+  (* update(kw=v, …) / transform(kw=f, …) / reset(): one mutation per keyword,
+     in order; what is left is the state after the first n of them — all n when
+     the call succeeds, the keywords before the failing one otherwise *)
+  Lemma stops_at_pack ip (d : dict) c e d' n total :
+    (e = None -> n = total) -> (e <> None -> (n < total)%nat) ->
+    stops_at V (pack V ip d c (e, d')) ip n total d'.
+  Proof.
+    intros H1 H2. destruct (pack_fields ip d c e d') as [E [_ [T [R _]]]].
+    unfold stops_at. rewrite E. split; intro He; [split; auto | split; auto].
+  Qed.
+
+  Lemma step_top_update (d : dict) c kws ip :
+    Forall (fun kv => sentinel (snd kv) = false) kws ->
+    let out := step d c (TopUpdate kws ip) in
+    (ip = false -> o_recv out = d) /\ o_calls out = c /\
+    exists n t, chain cd d (firstn n (map fst kws)) t /\ stops_at V out ip n (length kws) t.
+  Proof.
+    intro Hs. simpl. destruct kws as [|kv kws'] eqn:K.
+    - simpl. split; [reflexivity|]. split; [reflexivity|]. exists O, d. split; [constructor|].
+      split; [auto | intro N; now elim N].
+    - rewrite <- K in *. destruct (set_each V sentinel check cd d kws (negb ip)) as [e d'] eqn:S.
+      destruct (set_each_chain _ _ _ _ _ S Hs) as [n [C [N1 N2]]].
+      destruct (pack_fields ip d c e d') as [_ [R [_ [_ Cc]]]].
+      split; [exact R|]. split; [exact Cc|]. exists n, d'. split; [exact C|]. now apply stops_at_pack.
+  Qed.
+
+  Lemma step_top_transform (d : dict) c kws ip :
+    (forall f x, sentinel (apply_f f x) = false) ->
+    let out := step d c (TopTransform kws ip) in
+    (ip = false -> o_recv out = d) /\ o_calls out = c /\
+    exists n t, chain cd d (firstn n (map fst kws)) t /\ stops_at V out ip n (length kws) t.
+  Proof.
+    intro Hs. simpl. destruct kws as [|kv kws'] eqn:K.
+    - simpl. split; [reflexivity|]. split; [reflexivity|]. exists O, d. split; [constructor|].
+      split; [auto | intro N; now elim N].
+    - rewrite <- K in *.
+      destruct (transform_each V sentinel check fid apply_f cd d kws (negb ip)) as [e d'] eqn:S.
+      destruct (transform_each_chain _ _ _ _ _ S Hs) as [n [C [N1 N2]]].
+      destruct (pack_fields ip d c e d') as [_ [R [_ [_ Cc]]]].
+      split; [exact R|]. split; [exact Cc|]. exists n, d'. split; [exact C|]. now apply stops_at_pack.
+  Qed.
+
+  Lemma step_top_reset (d : dict) c ip :
+    let out := step d c (TopReset ip) in
+    (ip = false -> o_recv out = d) /\ o_calls out = c /\
+    exists l t, chain cd d l t /\ incl l (map fst (c_attrs cd)) /\
+                (o_err out = None -> target out = t) /\ (ip = true -> o_recv out = t).
+  Proof.
+    simpl. destruct (reset_each V sentinel check cd d (map fst (c_attrs cd)) (negb ip)) as [e d'] eqn:S.
+    destruct (reset_each_chain _ _ _ _ _ S) as [l [C I]].
+    destruct (pack_fields ip d c e d') as [E [R [T [R2 Cc]]]].
+    split; [exact R|]. split; [exact Cc|]. exists l, d'. rewrite E. auto.
+  Qed.
+
   (* ---------------------------------------------------------------- histories *)
   Lemma nth_step_single h : forall (d : dict) c n pre (o : op) out a,
     nth_step V sentinel check getter fid apply_f eop apply_e cd d c h n = Some (pre, o, out) ->
